@@ -33,7 +33,7 @@ type DispatchPlan struct {
 	NilPtr   bool                       `json:"nil_pointer"`
 }
 
-var marshalPositions = []string{"top", "top-pointer", "field", "field-nonaddr", "slice-elem", "array-elem-nonaddr", "map-value", "map-key", "in-interface", "pointer-in-interface", "pointer-field"}
+var marshalPositions = []string{"omitempty-field-zero-string", "top", "top-pointer", "field", "field-nonaddr", "slice-elem", "array-elem-nonaddr", "map-value", "map-key", "in-interface", "pointer-in-interface", "pointer-field"}
 var unmarshalPositions = []string{"top", "slice-elem", "field", "map-value", "pointer-field", "in-array-first"}
 
 func sortedCodes(m map[string]reflect.Type) []string {
@@ -138,7 +138,7 @@ func (p *DispatchPlan) contextModel() *refjson.Model {
 		m.Apply('[', "")
 	case "map-key":
 		m.Apply('{', "")
-	case "field", "field-nonaddr":
+	case "field", "field-nonaddr", "omitempty-field-zero-string":
 		m.Apply('{', "")
 		m.Apply('"', "A")
 		m.Apply('0', "")
@@ -324,6 +324,12 @@ func (sc *Dispatch) Run(t *core.Tape, env *Env) (any, []core.Violation) {
 	var typ reflect.Type
 	if p.Side == "marshal" {
 		typ = peers.MatrixMarshalTypes[p.Code]
+		if p.Position == "omitempty-field-zero-string" {
+			// a string-kind type holding "" in an omitempty field: whether the
+			// member stays is decided by the JSON the user method produces, so the
+			// method must be consulted although the Go value is zero-length
+			typ = peers.MatrixStringMarshalTypes[p.Code]
+		}
 	} else {
 		typ = peers.MatrixUnmarshalTypes[p.Code]
 	}
@@ -476,7 +482,9 @@ func (sc *Dispatch) warm(kind string, typ reflect.Type, opts []json.Options, pen
 
 func (sc *Dispatch) runMarshal(p *DispatchPlan, typ reflect.Type, opts []json.Options, penv *peers.Env, st *core.Stats, report func(prop, class, site, f string, a ...any) bool) {
 	val := reflect.New(typ).Elem()
-	val.Field(0).SetInt(7)
+	if typ.Kind() == reflect.Struct {
+		val.Field(0).SetInt(7)
+	}
 	tString := reflect.TypeFor[string]()
 	var in any
 	var wrapPre, wrapPost string
@@ -490,6 +498,11 @@ func (sc *Dispatch) runMarshal(p *DispatchPlan, typ reflect.Type, opts []json.Op
 			ptr = reflect.Zero(reflect.PointerTo(typ))
 		}
 		in = ptr.Interface()
+	case "omitempty-field-zero-string":
+		st := reflect.StructOf([]reflect.StructField{{Name: "A", Type: reflect.TypeFor[int]()}, {Name: "F", Type: typ, Tag: `json:",omitempty"`}})
+		sv := reflect.New(st)
+		in = sv.Interface()
+		wrapPre, wrapPost = `{"A":0,"F":`, `}`
 	case "field", "field-nonaddr":
 		st := reflect.StructOf([]reflect.StructField{{Name: "A", Type: reflect.TypeFor[int]()}, {Name: "F", Type: typ}})
 		sv := reflect.New(st)
@@ -566,7 +579,7 @@ func (sc *Dispatch) runMarshal(p *DispatchPlan, typ reflect.Type, opts []json.Op
 	} else {
 		wantLog, wantOK, terminal = p.predict(false)
 	}
-	desc := fmt.Sprintf("type M%s (To,JSON,Append,Text: 0 absent,1 value,2 pointer receiver) at %s, funcs %v, behaviours %s", p.Code, p.Position, p.Funcs, behStr(p))
+	desc := fmt.Sprintf("type %s%s (To,JSON,Append,Text: 0 absent,1 value,2 pointer receiver) at %s, funcs %v, behaviours %s", map[bool]string{true: "M", false: "S"}[typ.Kind() == reflect.Struct], p.Code, p.Position, p.Funcs, behStr(p))
 	if p.Position == "map-key" && wantOK && terminal == "default" {
 		// the default representation of a struct is not a string: no valid key
 		wantOK = false
@@ -600,6 +613,9 @@ func (sc *Dispatch) runMarshal(p *DispatchPlan, typ reflect.Type, opts []json.Op
 			if strings.HasSuffix(terminal, "/nested") {
 				want = []string{`["peer-0"]`, `{"k":"peer-0"}`, `"peer-0"`, `{"F":"peer-0"}`}[penvNameID(p, strings.TrimSuffix(terminal, "/nested"))&3]
 			}
+		}
+		if p.Position == "omitempty-field-zero-string" && terminal == "default" {
+			wrapPre, want, wrapPost = `{"A":0}`, "", "" // "" is an empty JSON value: the member is omitted
 		}
 		if got := string(out); got != wrapPre+want+wrapPost {
 			if report("C17", "C17/representation", site, "output %s, expected %s; %s", clip(out, 100), wrapPre+want+wrapPost, desc) {
